@@ -69,6 +69,8 @@ def cases(tier, seed):
                 a2 = ('leaf', a[1], 0)
                 b2 = ('leaf', b[1], 1)
                 out.append(('closed', fam, ('diag', c, (a2, b2))))
+        out.append(('closed', fam, ('diag', 'list', tuple(('leaf', x[1], i) for i, x in enumerate((pool * 3)[:3])))))
+        out.append(('closed', fam, ('diag', 'dict', tuple(('leaf', x[1], i) for i, x in enumerate((pool * 3)[1:4])))))
         if tier == 'thorough':
             for a, b, d in itertools.product(pool, repeat=3):
                 out.append(('closed', fam, ('diag', 'nest', (('leaf', a[1], 0), ('leaf', b[1], 1), ('leaf', d[1], 2)))))
